@@ -2,14 +2,14 @@
 From FC Require Import Base.Res Model.Wire Model.Machine Model.ICMachine Model.FSMachine Model.Catalogue.
 Require Import Extraction ExtrOcamlBasic.
 
-Definition run_entry (chk : bool) (n : N) (ops : list op) : option (list (list obs)) :=
-  match entry chk n with
+Definition run_entry (chk : bool) (szs : list N) (n : N) (ops : list op) : option (list (list obs)) :=
+  match entry chk szs n with
   | Some M => Some (run0 M ops)
   | None => None
   end.
 
-Definition run_fs_entry (chk : bool) (n : N) (ops : list fsop) : option (list uval) :=
-  match fs_entry chk n with
+Definition run_fs_entry (chk : bool) (szs : list N) (n : N) (ops : list fsop) : option (list uval) :=
+  match fs_entry chk szs n with
   | Some F => Some (fs_run0 F ops)
   | None => None
   end.
